@@ -158,7 +158,7 @@ func (h *Hist) genTx() *histTx {
 		{"lp.open", 8}, {"lp.close", 6}, {"lp.closePositions", 4}, {"lp.claim", 1},
 		{"perp.open", 8}, {"perp.close", 6}, {"perp.closePositions", 4}, {"perp.swapOutPair", 1},
 		{"mc.claim", 3}, {"mc.externalIncentive", 1},
-		{"ts.spotCreate", 3}, {"ts.spotCancel", 2}, {"ts.perpCreate", 3}, {"ts.perpCancel", 2}, {"ts.execute", 4}, {"ts.spotUpdate", 1}, {"ts.perpUpdate", 1},
+		{"ts.spotCreate", 3}, {"ts.spotCancel", 2}, {"ts.perpCreate", 3}, {"ts.perpCancel", 2}, {"ts.execute", 4}, {"ts.spotUpdate", 1}, {"ts.perpUpdate", 1}, {"ts.spotCancelMany", 1}, {"ts.perpCancelMany", 1},
 		{"bank.donate", 3}, {"amm.feedExternalLiquidity", 2},
 	}
 	tot := 0
@@ -799,6 +799,50 @@ func (h *Hist) genTx() *histTx {
 			break
 		}
 		tx.f = J{"id": o.OrderId, "owner": o.OwnerAddress}
+	case "ts.spotCancelMany", "ts.perpCancelMany":
+		// the batch forms of cancel: one to three pending orders named in one message, usually all of one owner who signs, now and then
+		// with somebody else's order among them or signed by somebody else (the whole message must then be refused)
+		type pend struct {
+			id    uint64
+			owner string
+		}
+		var all []pend
+		if kind == "ts.spotCancelMany" {
+			for _, o := range app.TradeshieldKeeper.GetAllPendingSpotOrder(ctx) {
+				all = append(all, pend{o.OrderId, o.OwnerAddress})
+			}
+		} else {
+			for _, o := range app.TradeshieldKeeper.GetAllPendingPerpetualOrder(ctx) {
+				all = append(all, pend{o.OrderId, o.OwnerAddress})
+			}
+		}
+		if len(all) == 0 {
+			return nil
+		}
+		first := all[r.Intn(len(all))]
+		picked := []pend{first}
+		for _, o := range all {
+			if len(picked) < 3 && o.id != first.id && (o.owner == first.owner || r.Intn(4) == 0) {
+				picked = append(picked, o)
+			}
+		}
+		signer := w.byAddr[first.owner]
+		if signer == nil || r.Intn(4) == 0 {
+			signer = u
+		}
+		tx.req.Signer = signer
+		var ids []uint64
+		var owners []string
+		for _, o := range picked {
+			ids = append(ids, o.id)
+			owners = append(owners, o.owner)
+		}
+		if kind == "ts.spotCancelMany" {
+			tx.req.Msgs = []sdk.Msg{&tstypes.MsgCancelSpotOrders{Creator: signer.Addr.String(), SpotOrderIds: ids}}
+		} else {
+			tx.req.Msgs = []sdk.Msg{&tstypes.MsgCancelPerpetualOrders{OwnerAddress: signer.Addr.String(), OrderIds: ids}}
+		}
+		tx.f = J{"ids": ids, "owners": owners}
 	case "ts.execute":
 		var sids, pids []uint64
 		for _, o := range app.TradeshieldKeeper.GetAllPendingSpotOrder(ctx) {
